@@ -34,6 +34,11 @@ EXPECT = {
     'c01d_is_child_by_recycled_ident': ['C01', 'C04', 'C16'],
     'c12d_no_end_marker_on_connection_closed': ['C12', 'C06'],
     'c17d_server_side_wait_inverts_dead_flag': ['C17', 'C09', 'C04'],
+    'c03e_remote_terminate_returns_on_ctrl_failure': ['C04'],
+    'c04e_release_child_shutdown_unguarded': ['C04', 'C09'],
+    'c06e_defaults_copied_once': ['C06', 'C05'],
+    'c07e_kwargs_alias_defaults': ['C07', 'C05'],
+    'c17e_is_alive_skips_server_when_result_known': ['C17', 'C09'],
     'c20d_server_side_pid_not_set_after_start': ['C20', 'C12'],
     'c10d_header_topup_loop_without_eof_check': ['C10', 'C11'],
 }
